@@ -833,15 +833,43 @@ func randomCfg(r *rand.Rand) []uint64 {
 	return cfg
 }
 
+// corpusMotifs: the corpus histories, used as PREFIXES of a share of the random histories (a random cut of a random
+// corpus history is replayed first, then generation continues at random from the situation it reached): the corner
+// cases that were worth writing down are then also explored in their neighbourhood, not only replayed verbatim.
+var corpusMotifs []hist.H
+
 func runRandom(t *testing.T, w *hist.W, h int) {
 	r := hist.Rng(h)
 	synctest.Test(t, func(t *testing.T) {
 		cfg := randomCfg(r)
+		var prefix [][]uint64
+		if len(corpusMotifs) > 0 && r.IntN(6) == 0 {
+			m := corpusMotifs[r.IntN(len(corpusMotifs))]
+			if len(m.Cfg) >= 5 && len(m.Evs) > 0 {
+				cfg = append([]uint64{}, m.Cfg...)
+				prefix = m.Evs[:1+r.IntN(len(m.Evs))]
+			}
+		}
 		s := newSys(w, cfg)
 		defer s.teardown()
 		w.Begin(fmt.Sprintf("r%d", h), cfg)
+		for _, ev := range prefix {
+			ev = append([]uint64{}, ev...)
+			obs, ok := s.exec(ev)
+			if !ok {
+				break
+			}
+			s.count(ev, obs)
+			w.Step(ev, obs)
+		}
+		if prefix != nil {
+			w.Count("random_with_corpus_prefix", 1)
+		}
 		steps := 10 + r.IntN(60)
 		maxInst := 3 + r.IntN(10)
+		if prefix != nil {
+			maxInst += len(s.insts)
+		}
 		for k := 0; k < steps; k++ {
 			ev := s.gen(r, maxInst)
 			if ev == nil {
@@ -896,7 +924,8 @@ func TestRoutine(t *testing.T) {
 		}
 		return
 	}
-	for _, h := range hist.LoadCorpus(*hist.Corpus) {
+	corpusMotifs = hist.LoadCorpus(*hist.Corpus)
+	for _, h := range corpusMotifs {
 		runFixed(t, w, h.ID, h.Cfg, h.Evs)
 		w.Count("corpus", 1)
 	}
